@@ -96,6 +96,7 @@ type Drv struct {
 	Stat            *Stats
 	viaNewCtr       int
 	triedStructural bool
+	leaked          bool
 	transient       typed.TFilter
 	exhausted       []int
 }
@@ -158,6 +159,12 @@ func NewDrv(name string, cfg Config, m *Model, st *Stats) *Drv {
 	}
 	for c := 0; c < u.N; c++ {
 		d.Maps[c] = u.Types[c].NewMap(d.W)
+	}
+	if cfg.Late > 0 {
+		// the registry grows during the history: every typed mapper exists before it does
+		for t := range typed.Tuples {
+			d.TMap(t)
+		}
 	}
 	var reg ecs.EventRegistry
 	d.Custom[0] = reg.NewEventType()
